@@ -290,6 +290,7 @@ func runOneHistory(opt TwinOptions, c int, r *rng.R, res *Result, hl *HistoryLog
 		script = govFeeScript
 	}
 	okTx, hook, failedWithOk, injectedOK, midCrash := 0, 0, 0, 0, 0
+	flipAt := int64(2 + c%7) // derived from the case number, not from the generator state
 	var future [][]byte
 	for bi := 0; bi < opt.Blocks; bi++ {
 		g.Height = sim.Height + 1
@@ -341,6 +342,13 @@ func runOneHistory(opt TwinOptions, c int, r *rng.R, res *Result, hl *HistoryLog
 		}
 		switch opt.Mode {
 		case ModeTwin:
+			// a node's witness role is a flag computed at start-up: a genesis witness acts as one only
+			// after its first restart. The third replica changes its role at a generated block, the
+			// way a restart does (it has no jobs of the trackers in flight then)
+			if len(reps) > 2 && p.Witnesses > 0 && flipAt == b.Height {
+				reps[2].IsWitness = !reps[2].IsWitness
+				hl.Add("  replica C changes its witness role to %v", reps[2].IsWitness)
+			}
 			for _, rp := range reps[1:] {
 				rb := rp.ExecBlock(b)
 				if rb.Transcript() != ra.Transcript() {
